@@ -123,6 +123,8 @@ def run(ck):
         # the tombstone GC (threshold 1) runs while a LIVE Sync-mode session has an empty buffer and no reader parked: its buffer is
         # not a tombstone - bytes that arrive afterwards are still buffered and returned, a second GC round included
         "16/1 | io=accept:1,accept:2,accept:3,waitflag:s,close:2,close:3,data:1:4,setflag:d,waitflag:s2,accept:4,close:4,data:1:2,setflag:d2 ; main=mode:1:sync,setflag:s,waitflag:d,recv:1:4:200,setflag:s2,waitflag:d2,recv:1:4:200,expectall:1",
+        # data that the I/O thread delivers after stop() was called (the rest of its batch) still reaches the parked reader
+        "8 | io=accept:1,waitflag:s,data:1:2,atstop,data:1:3,data:1:1 ; main=mode:1:sync,setflag:s,waitparked:a,stop,join ; a=waitflag:s,recv:1:2:100000,recv:1:8:100000,recv:1:8:50",
     ]
     lines = []
     nsched = 40 if thorough else 6
